@@ -174,7 +174,7 @@ func CheckC05(spec *vexec.CaseSpec, out *vexec.Outcome, controlled bool) (rs []R
 			got := ""
 			for i, k := range l.kills {
 				if k > T0 && got == "" {
-					got = l.killSigs[i]
+					got = strings.TrimSuffix(l.killSigs[i], "|lost")
 				}
 			}
 			if got == "" {
@@ -195,7 +195,7 @@ func CheckC05(spec *vexec.CaseSpec, out *vexec.Outcome, controlled bool) (rs []R
 			gotKill := false
 			nk := 0
 			for i, k := range l.kills {
-				if k > lastBefore(l.enters, hungSeq) {
+				if k > lastBefore(l.enters, hungSeq) && !strings.HasSuffix(l.killSigs[i], "|lost") {
 					nk++
 					if l.killSigs[i] == "SIGKILL" {
 						gotKill = true
@@ -373,7 +373,10 @@ func c05Body(c *core.Ctx) {
 		for _, e := range out.Events {
 			if e.Kind == "KILL" {
 				nk++
-				c.SetAdd("signals_delivered", e.Info)
+				c.SetAdd("signals_delivered", strings.TrimSuffix(e.Info, "|lost"))
+				if strings.HasSuffix(e.Info, "|lost") {
+					c.Count("kills_that_reached_no_process", 1)
+				}
 			}
 		}
 		c.Count("kill_events", int64(nk))
